@@ -78,6 +78,8 @@ func (cr *caseRun) pickChanID(ephOK bool) int {
 	return cs[cr.r.Intn(len(cs))]
 }
 
+var wrapPre, wrapPost string
+
 // weights of operation kinds per profile
 type weights map[string]int
 
@@ -87,6 +89,7 @@ var profiles = map[string]weights{
 	"c03": {"pub": 18, "sub": 9, "rdy": 20, "fin": 10, "req": 6, "touch": 1, "scan": 6, "cls": 5, "disc": 2, "pausec": 9, "pauset": 6, "createc": 2, "foreign": 1, "badstate": 2, "restart": 2},
 	"c01": {"pub": 24, "sub": 8, "rdy": 10, "fin": 6, "req": 10, "touch": 2, "scan": 10, "cls": 2, "disc": 8, "pausec": 3, "pauset": 3, "createc": 6, "foreign": 1},
 	"c08": {"pub": 18, "sub": 9, "rdy": 9, "fin": 6, "req": 6, "touch": 1, "scan": 6, "cls": 1, "disc": 5, "pausec": 2, "pauset": 2, "emptyc": 9, "emptyt": 3, "deletec": 6, "deletet": 3, "createc": 5, "createt": 2, "eph": 8},
+	"c04": {"pub": 26, "sub": 8, "rdy": 10, "fin": 8, "req": 16, "touch": 3, "scan": 20, "cls": 1, "disc": 3, "pausec": 2, "createc": 7, "foreign": 1},
 	"c05": {"pub": 22, "sub": 8, "rdy": 9, "fin": 8, "req": 9, "touch": 1, "scan": 6, "cls": 1, "disc": 3, "pausec": 4, "pauset": 3, "createc": 4, "restart": 5, "eph": 2},
 }
 
@@ -138,7 +141,11 @@ func (cr *caseRun) step(w weights) {
 		}
 		// with mem-queue-size 0 a deferred publish keeps its timer only if the topic pump
 		// happens to be waiting in its select at that instant (unbuffered hand-off): a race
-		deferred := n == 1 && cr.memq > 0 && cr.r.Chance(12)
+		pdef := 12
+		if cr.profile == "c04" {
+			pdef = 45
+		}
+		deferred := n == 1 && cr.memq > 0 && cr.r.Chance(pdef)
 		cr.opPub(t, n, deferred, cr.r.Chance(40))
 	case "sub":
 		sc := cr.opConnect(cr.r.Chance(40), cr.r.Chance(20))
@@ -412,7 +419,7 @@ func runCase(seed uint64, name, profile string, nops int, memq int64) lib.Case {
 		tags = append(tags, fmt.Sprintf("%s×%d", k, v))
 	}
 	sort.Strings(tags)
-	coq := fmt.Sprintf("(mkCase (mkCfg %d %s) [\n%s])", memq, z(int64(opts.MaxMsgTimeout)), strings.Join(cr.events, ";\n"))
+	coq := fmt.Sprintf(wrapPre+"(mkCase (mkCfg %d %s) [\n%s])"+wrapPost, memq, z(int64(opts.MaxMsgTimeout)), strings.Join(cr.events, ";\n"))
 	return lib.Case{Name: name, Coq: coq,
 		Input:      map[string]interface{}{"seed": seed, "profile": profile, "nops": nops, "memq": memq, "name": name},
 		Tags:       tags,
@@ -435,10 +442,14 @@ func main() {
 	seed := flag.Uint64("seed", 1, "seed")
 	profile := flag.String("profile", "c13", "profile")
 	nofine := flag.Bool("nofine", false, "skip the forced-interleaving scenarios")
+	wrap := flag.String("wrap", "", "constructor to wrap every case term in (e.g. J04.CoreTrace)")
 	out := flag.String("out", "", "output")
 	replay := flag.String("replay", "", "replay file")
 	par := flag.Int("par", 6, "parallel cases")
 	flag.Parse()
+	if *wrap != "" {
+		wrapPre, wrapPost = "("+*wrap+" ", ")"
+	}
 	o := lib.NewOut(*out)
 	defer o.Close()
 	var ins []replayIn
